@@ -61,6 +61,16 @@ HIGHER = {
 }
 
 
+# three settled events on two roots: the third run of c has no entry of its own
+# run for b and must fall back to the LATEST b (run 2), not the first
+THREE = {
+    'name': 'directed-three-events', 'desc': TWOROOTS, 'targets': ['T1'],
+    'events': [['chg', [0, 1], [1]], ['tick'], ['run', 1], ['run', 0], ['tick'], ['run', 0],
+               ['chg', [1], [1]], ['tick'], ['run', 0], ['tick'], ['run', 0],
+               ['chg', [0], [1]], ['tick'], ['run', 0], ['tick'], ['run', 0]],
+}
+
+
 def nl(xs):
     return '[' + '; '.join('%d' % int(x) for x in xs) + ']'
 
@@ -185,7 +195,7 @@ def oracle(r):
 
 def gen_cases(ctx, n, profile, label):
     cases = []
-    names = sorted(ENGINES)
+    names = ['vee', 'tworoots', 'diamond', 'chain3']
     for i in range(n):
         rng = random.Random('%s:%s:%d' % (ctx.seed, label, i))
         en = names[i % len(names)] if i < len(names) else rng.choice(names)
@@ -201,7 +211,7 @@ def study(ctx):
     ctx.trust('Flow.v + drive_flow.py correspondence (fakes: in-memory AE packages whose run() stores a canonical text of what was loaded, db socket hop short-circuited, lock stubs, fsm stub, md5sum/sha1sum answered by hashlib after the first real calls agreed)')
     ctx.assume('worker hand-out, archive trigger, failures, analyses/regressions and promotion are outside Model/Flow.v; the end-state theorem is about task-only engines with one value per algorithm')
     w = dict(WITNESS, events=witness_events())
-    cases = [w, HIGHER]
+    cases = [w, HIGHER, THREE]
     cases += gen_cases(ctx, ctx.n(2, 12), 'nonoverlap', 'flow-no')
     cases += gen_cases(ctx, ctx.n(1, 12), 'overlap', 'flow-ov')
     res = ctx.harness('drive_flow.py', {'cases': cases}, timeout=3000)['cases']
@@ -211,6 +221,8 @@ def study(ctx):
     nmis = 0
     keys = []
     hit_witness = False
+    # first the oracle on every history (failing inputs), then the correspondence
+    parted = []
     for r, m in zip(res, model):
         if not r.get('digest_standin_agrees', True):
             ctx.broken('drive_flow.py: the hashlib stand-in disagrees with md5sum/sha1sum', r['name'],
@@ -230,23 +242,27 @@ def study(ctx):
                              json.dumps(bad[0][2]), json.dumps(bad[0][3])),
                           {'source': 'flow', 'case': {'desc': r['desc'], 'targets': r['graph']['tnames'][1:],
                                                       'events': r['events']}})
-            if r['name'] == w['name']:
+            if r['name'] == w['name'] and ov:
                 hit_witness = True
         # the model must agree about staleness, too
-        if mm is None and sorted(b[:2] for b in bad) != (m['stale'] if r['quiescent'] else sorted(b[:2] for b in bad)):
+        if mm is None and r['quiescent'] and sorted(b[:2] for b in bad) != m['stale']:
             mm = (len(r['obs']), ['stale'], sorted(b[:2] for b in bad), m['stale'])
         if mm is not None:
             nmis += 1
-            if not ctx.nviol:
-                ctx.broken('flow correspondence: Model/Flow.v and the real scheduler+store part at step %d of %s (%s)'
-                           % (mm[0], r['name'], ','.join(mm[1])),
-                           json.dumps({'impl': mm[2], 'model': mm[3], 'events': r['events'][:mm[0] + 1]}, default=str),
-                           {'source': 'flow', 'case': {'desc': r['desc'], 'targets': r['graph']['tnames'][1:],
-                                                       'events': r['events']}})
+            parted.append((r, mm))
         nruns = sum(1 for e, o in zip(r['events'], r['obs']) if e[0] == 'run' and o.get('wrote'))
         nchg = sum(1 for e in r['events'] if e[0] == 'chg')
         if nchg >= 2 and nruns >= 4 and r['quiescent']:
             keys.append('flow:' + r['name'])
+    for r, mm in parted:
+        if ctx.nviol:
+            ctx.note('flow_mismatch_explained_by_violation', True)
+            break
+        ctx.broken('flow correspondence: Model/Flow.v and the real scheduler+store part at step %d of %s (%s)'
+                   % (mm[0], r['name'], ','.join(mm[1])),
+                   json.dumps({'impl': mm[2], 'model': mm[3], 'events': r['events'][:mm[0] + 1]}, default=str),
+                   {'source': 'flow', 'case': {'desc': r['desc'], 'targets': r['graph']['tnames'][1:],
+                                               'events': r['events']}})
     ctx.expect_known('endstate-stale', hit_witness)
     if not hit_witness and not ctx.nviol:
         ctx.broken('known finding endstate-stale no longer reproduces: the witness history of C02_endstate_refuted '
